@@ -1,6 +1,98 @@
-// c32_gen.h — C32's local extensions of the mjgen.h generator (stub, filled below)
+// c32_gen.h — C32's local extensions of the mjgen.h generator (mjSpec route): states that MJCF text
+// does not produce directly.  ext bits:
+//   1  default classes added through mjs_addDefault with modified joint/geom/site defaults, and existing
+//      elements re-assigned to them with mjs_setDefault (the class changes, the element's values do not)
+//   2  keyframes with full qpos/qvel/act/ctrl/mpos/mquat vectors (sizes taken from a trial compile)
+//   4  frames: new geoms and sites attached to (nested) frames with mjs_setFrame
 #ifndef VERIF_C32_GEN_H_
 #define VERIF_C32_GEN_H_
 #include "mjgen.h"
-static inline void c32_extend(mjSpec* s, uint64_t seed, unsigned feat, int nbody, unsigned ext) { (void)s; (void)seed; (void)feat; (void)nbody; (void)ext; }
+
+static inline void c32_extend(mjSpec* s, uint64_t seed, unsigned feat, int nbody, unsigned ext) {
+  (void)feat; (void)nbody;
+  mjg_rng R = { seed * 0x9E3779B97F4A7C15ULL + 777 }; mjg_rng* r = &R;
+  mjsBody* world = mjs_findBody(s, "world");
+  if (ext & 1) {
+    mjsDefault* main_def = mjs_getSpecDefault(s);
+    mjsDefault* a = mjs_addDefault(s, "cA", main_def);
+    a->geom->friction[0] = mjg_range(r, 0.2, 1.5); a->geom->margin = mjg_range(r, 0, 0.01); a->geom->rgba[0] = 0.25f;
+    a->geom->solref[0] = mjg_range(r, 0.005, 0.05); a->geom->group = 2;
+    a->joint->armature = mjg_range(r, 0, 0.1); a->joint->damping[0] = mjg_range(r, 0, 1); a->joint->stiffness[1] = mjg_range(r, 0, 1);
+    a->joint->solimp_limit[2] = mjg_range(r, 0.0005, 0.01);
+    a->site->size[0] = 0.02; a->site->rgba[1] = 0.75f;
+    mjsDefault* b = mjs_addDefault(s, "cB", a);
+    b->geom->friction[0] = a->geom->friction[0];          // same as the parent: must not be written
+    b->geom->friction[1] = mjg_range(r, 0.001, 0.01);
+    b->geom->condim = 4;
+    b->joint->armature = 0;                                 // back to the builtin value: differs from the parent
+    b->joint->frictionloss = mjg_range(r, 0, 0.5);
+    mjsDefault* defs[3] = {main_def, a, b};
+    for (mjsElement* e = mjs_firstElement(s, mjOBJ_GEOM); e; e = mjs_nextElement(s, e))
+      if (mjg_chance(r, 0.5)) mjs_setDefault(e, defs[mjg_int(r, 3)]);
+    for (mjsElement* e = mjs_firstElement(s, mjOBJ_JOINT); e; e = mjs_nextElement(s, e))
+      if (mjg_chance(r, 0.5) && mjs_asJoint(e)->type != mjJNT_FREE) mjs_setDefault(e, defs[mjg_int(r, 3)]);
+    // new elements created from the classes (values copied from the class at creation)
+    for (mjsElement* e = mjs_firstElement(s, mjOBJ_BODY); e; e = mjs_nextElement(s, e)) {
+      mjsBody* body = mjs_asBody(e);
+      if (body == world || !mjg_chance(r, 0.4)) continue;
+      mjsGeom* g = mjs_addGeom(body, defs[1 + mjg_int(r, 2)]);
+      g->type = mjGEOM_SPHERE; g->size[0] = mjg_range(r, 0.02, 0.05); g->contype = 0; g->conaffinity = 0;
+      if (mjg_chance(r, 0.5)) g->friction[0] = mjg_range(r, 0.2, 1.5);
+    }
+  }
+  if (ext & 4) {
+    int k = 0;
+    for (mjsElement* e = mjs_firstElement(s, mjOBJ_BODY); e; e = mjs_nextElement(s, e)) {
+      mjsBody* body = mjs_asBody(e);
+      if (body == world || !mjg_chance(r, 0.5)) continue;
+      mjsFrame* f = mjs_addFrame(body, NULL);
+      for (int i = 0; i < 3; i++) f->pos[i] = mjg_range(r, -0.2, 0.2);
+      mjg_quat(r, f->quat);
+      if (mjg_chance(r, 0.5)) mjg_name(f->element, "fr", k);
+      mjsFrame* f2 = mjg_chance(r, 0.5) ? mjs_addFrame(body, f) : NULL;
+      if (f2) { f2->pos[0] = mjg_range(r, -0.1, 0.1); mjg_quat(r, f2->quat); }
+      mjsGeom* g = mjs_addGeom(body, NULL);
+      g->type = mjGEOM_BOX; g->size[0] = 0.02; g->size[1] = 0.03; g->size[2] = 0.04; g->contype = 0; g->conaffinity = 0;
+      for (int i = 0; i < 3; i++) g->pos[i] = mjg_range(r, -0.1, 0.1);
+      if (mjg_chance(r, 0.5)) mjg_quat(r, g->quat);
+      mjs_setFrame(g->element, f2 ? f2 : f);
+      mjsSite* st = mjs_addSite(body, NULL);
+      mjg_name(st->element, "fs", k++);
+      for (int i = 0; i < 3; i++) st->pos[i] = mjg_range(r, -0.1, 0.1);
+      mjs_setFrame(st->element, f);
+    }
+  }
+  if (ext & 2) {
+    mjModel* m = mj_compile(s, NULL);
+    if (m) {
+      int nq = (int)m->nq, nv = (int)m->nv, na = (int)m->na, nu = (int)m->nu, nm = (int)m->nmocap;
+      double* buf = (double*)calloc((size_t)(nq + nv + na + nu + 7 * nm + 8), sizeof(double));
+      for (int k = 0; k < 3; k++) {
+        mjsKey* key = mjs_addKey(s);
+        mjg_name(key->element, "kk", k);
+        key->time = k == 0 ? 0 : mjg_range(r, 0, 2);
+        if (k == 2) continue;                       // named key with default data
+        for (int i = 0; i < nq; i++) buf[i] = m->qpos0[i] + (mjg_chance(r, 0.7) ? mjg_range(r, -0.3, 0.3) : 0);
+        for (int j = 0; j < m->njnt; j++) {          // keep quaternions of free/ball joints normalized
+          int adr = m->jnt_qposadr[j];
+          if (m->jnt_type[j] == mjJNT_FREE) mjg_quat(r, buf + adr + 3);
+          if (m->jnt_type[j] == mjJNT_BALL) mjg_quat(r, buf + adr);
+        }
+        if (mjg_chance(r, 0.8)) mjs_setDouble(key->qpos, buf, nq);
+        for (int i = 0; i < nv; i++) buf[i] = mjg_range(r, -1, 1);
+        if (mjg_chance(r, 0.7)) mjs_setDouble(key->qvel, buf, nv);
+        for (int i = 0; i < na; i++) buf[i] = mjg_range(r, -0.5, 0.5);
+        if (na && mjg_chance(r, 0.7)) mjs_setDouble(key->act, buf, na);
+        for (int i = 0; i < nu; i++) buf[i] = mjg_range(r, -1, 1);
+        if (nu && mjg_chance(r, 0.7)) mjs_setDouble(key->ctrl, buf, nu);
+        for (int i = 0; i < 3 * nm; i++) buf[i] = mjg_range(r, -1, 1);
+        if (nm && mjg_chance(r, 0.7)) mjs_setDouble(key->mpos, buf, 3 * nm);
+        for (int i = 0; i < nm; i++) mjg_quat(r, buf + 4 * i);
+        if (nm && mjg_chance(r, 0.7)) mjs_setDouble(key->mquat, buf, 4 * nm);
+      }
+      free(buf);
+      mj_deleteModel(m);
+    }
+  }
+}
 #endif
